@@ -276,10 +276,12 @@ Definition creceive (cfg : ccfg) (v0 : creceiver) (buf : str) : creceiver * str 
         | Some n =>
             let rx_size := nlen b1 in
             (* a body without a content length header: allow up to max_body_size_ *)
-            let cl := if (0 <? rx_size) && (n =? 0) && negb (nonempty (hd_find (rp_headers q1) hf_LC_CONTENT_LENGTH))
-                      then cc_max_body cfg else n in
+            let no_content_length := (0 <? rx_size) && (n =? 0) && negb (nonempty (hd_find (rp_headers q1) hf_LC_CONTENT_LENGTH)) in
+            let cl := if no_content_length then cc_max_body cfg else n in
             let required := (Z.of_N cl - Z.of_N (nlen (cv_body v1)))%Z in
-            if (required <? 0)%Z && (required <? Z.of_N rx_size)%Z then (v1, b1, RX_UB)
+            (* such a body may not exceed max_body_size_ *)
+            if (required <? Z.of_N rx_size)%Z && no_content_length then (cv_clear v1, b1, RX_INVALID)
+            else if (required <? 0)%Z && (required <? Z.of_N rx_size)%Z then (v1, b1, RX_UB)
             else
               let '(body, b2) :=
                 if (required <? Z.of_N rx_size)%Z
